@@ -29,6 +29,10 @@ func init() { scenarios["C12"] = runC12 }
 
 func runC12(s *Sim) {
 	t := s.T
+	if t.Bool("wire-level-flood", 1, 12) {
+		runC12Wire(s)
+		return
+	}
 	s.Family = "hostile-frames"
 	bc := BrokerCfg{AutoReq: false, AutoAck: false, AutoPong: false, AutoCallAck: false, AutoAckComplete: true}
 	y := newSys(s, bc)
@@ -132,7 +136,7 @@ func runC12(s *Sim) {
 				acts = append(acts, Action{Name: "hostile", W: 4, Do: func() {
 					hostileLeft--
 					s.Nontrivial()
-					kind := Pick(t, "hostile-kind", "wrong-type", "bitflip", "truncate", "random", "splice", "structural", "inflate", "structural", "misaddressed")
+					kind := Pick(t, "hostile-kind", "wrong-type", "bitflip", "truncate", "random", "splice", "structural", "inflate", "structural", "misaddressed", "flood")
 					s.Stat("fault.corrupt-" + kind)
 					// base frame: the next pending reply if any, else a fresh pong-like frame
 					var base []byte
@@ -170,6 +174,43 @@ func runC12(s *Sim) {
 						if out == nil {
 							out = []byte{}
 						}
+					case "flood":
+						// far more well-formed stream messages than any internal queue holds (acks for the
+						// live upstream, about chunks it never sent): afterwards the read path still takes
+						// frames off the transport - a broker ping is answered without any clock advance
+						alias := c.up.B.aliasOn[l.ID]
+						nf := Pick(t, "flood-n", 1200, 300, 2500)
+						pingAnswered := func() (uint32, bool) {
+							id := s.Broker.EmitPing(l)
+							l.DeliverAll()
+							s.Wait()
+							l.IngestAll()
+							if bcn := l.bc; bcn != nil {
+								for _, p := range bcn.Pongs {
+									if p == id {
+										return id, true
+									}
+								}
+							}
+							return id, false
+						}
+						if _, ok := pingAnswered(); !ok {
+							// an earlier hostile frame already ended this connection's reader (answered with
+							// an error; keepalive will replace the connection): nothing to learn here
+							s.Stat("c12.flood-skipped-reader-gone")
+							return
+						}
+						for k := 0; k < nf; k++ {
+							l.push(&message.UpstreamChunkAck{StreamIDAlias: alias, Results: []*message.UpstreamChunkResult{{SequenceNumber: uint32(100000 + k), ResultCode: message.ResultCodeSucceeded, ResultString: "flood"}}})
+						}
+						l.DeliverAll()
+						s.Wait()
+						id, answered := pingAnswered()
+						if !answered && l.Alive() {
+							s.Violate("C12.read-path-wedged", "ack-flood", "after %d well-formed acks for the live upstream a broker ping (id %d) is not answered: the read path no longer takes frames off the transport", nf, id)
+						}
+						s.Logf("hostile: flood of %d acks", nf)
+						return
 					case "misaddressed":
 						// well-formed stream messages for addresses nobody owns
 						spontaneousMisaddressed(s, l, c.dn.B.Alias, t.Choose("spont-kind", 5))
